@@ -2911,29 +2911,7 @@ func (r *Run) positionalReducerProver(fn *ssa.Function, e ast.Expr) (string, boo
 		if !isNilConst(unwrap(vals[1])) {
 			continue // a failed worker: AsyncMapReduce does not reduce its value
 		}
-		v := unwrap(vals[0])
-		if v.Referrers() == nil {
-			return "", false
-		}
-		carried := false
-		for _, ref := range *v.Referrers() {
-			fb, ok := ref.(*ssa.FieldAddr)
-			if !ok || fb.X != v || fieldOf(fb) != carrier {
-				continue
-			}
-			for _, r2 := range *fb.Referrers() {
-				st, ok := r2.(*ssa.Store)
-				if !ok || st.Addr != ssa.Value(fb) {
-					continue
-				}
-				if unwrap(st.Val) != idx {
-					return "", false
-				}
-				if instrDominates(st, ret) {
-					carried = true
-				}
-			}
-		}
+		carried := r.carriesIndex(unwrap(vals[0]), idx, ret, carrier, 0)
 		if !carried {
 			return "", false
 		}
@@ -2977,6 +2955,67 @@ func (r *Run) pureResultOf(c *ssa.Call) (ssa.Value, map[*ssa.Parameter]ssa.Value
 		m[p] = c.Call.Args[i]
 	}
 	return rets[0].Results[0], m
+}
+
+// carriesIndex: at instruction `at`, the struct v points to has field `carrier` set from idx —
+// by stores in this function that all write idx, one of which dominates `at`, or because v is
+// the result of a module function every return of which hands back such a value built from the
+// parameter idx is passed for (a constructor helper).
+func (r *Run) carriesIndex(v, idx ssa.Value, at ssa.Instruction, carrier *types.Var, depth int) bool {
+	if v.Referrers() == nil || depth > 2 {
+		return false
+	}
+	carried := false
+	for _, ref := range *v.Referrers() {
+		fb, ok := ref.(*ssa.FieldAddr)
+		if !ok || fb.X != v || fieldOf(fb) != carrier || fb.Referrers() == nil {
+			continue
+		}
+		for _, r2 := range *fb.Referrers() {
+			st, ok := r2.(*ssa.Store)
+			if !ok || st.Addr != ssa.Value(fb) {
+				continue
+			}
+			if unwrap(st.Val) != idx {
+				return false
+			}
+			if instrDominates(st, at) {
+				carried = true
+			}
+		}
+	}
+	if carried {
+		return true
+	}
+	c, ok := v.(*ssa.Call)
+	if !ok {
+		return false
+	}
+	sc := c.Call.StaticCallee()
+	if sc == nil {
+		return false
+	}
+	h := r.P.declared(sc)
+	if h == nil || !inModule(h) || h.Blocks == nil || len(h.Params) != len(c.Call.Args) {
+		return false
+	}
+	for k, a := range c.Call.Args {
+		if unwrap(a) != idx {
+			continue
+		}
+		rets := returnsOf(h)
+		good := len(rets) > 0
+		for _, ret := range rets {
+			vals := retVals(ret)
+			if len(vals) != 1 || !r.carriesIndex(unwrap(vals[0]), h.Params[k], ret, carrier, depth+1) {
+				good = false
+			}
+		}
+		if good {
+			return true
+		}
+	}
+	return false
 }
 
 // sameCount: two integer values that are the same number — the same SSA value (possibly read
